@@ -46,7 +46,7 @@ def sites(run: Run):
     # one repo-wide floor guards the front end (import / callee resolution); the
     # per-property counts only need to be non-vacuous, so that dropping one
     # kernel call in a refactoring is not mistaken for a broken analysis
-    run.floor("kernel call sites resolved repo-wide", len(_SITES[run.repo]), 40)
+    run.floor("kernel call sites resolved repo-wide", len(_SITES[run.repo]), 40, hard=True)
     return _SITES[run.repo]
 
 
